@@ -30,14 +30,27 @@ RULE = ("random interleavings (14-30 ops) of edits (value assignment/clearing; r
 
 
 KNOWN_DEEP = "C02-caught-deep"
+KNOWN_CAUGHT = "C02-caught-failure-untracked"
 
 
-def classify(deep_hit):
+def classify(deep_hit, live=None, query=None, result=None):
     """known findings are recognised by their specific trigger"""
     if deep_hit:
         # the recursion limit was hit and a formula caught it (the evaluation still returned a
         # value): the value is depth- and cache-dependent (same root cause as C01-caught-deep)
         return KNOWN_DEEP
+    if live is not None and result is not None and result.startswith("ok"):
+        # the held value is the value of the `except` branch of a formula that caught the failure
+        # of a callee: modelx records no dependency on a callee that failed (the failed element
+        # has no node), so a later edit that makes the callee succeed does not clear it
+        try:
+            src = live.space(query[0]).cells[query[1]].formula.source
+        except Exception:
+            return None
+        import re
+        m = re.search(r"except Exception:\s+return (-\d+)", src)
+        if m and result == "ok " + m.group(1):
+            return KNOWN_CAUGHT
     return None
 
 
@@ -68,7 +81,7 @@ class H(S.Hooks):
         stats["oracle_fresh_queries"] += 1
         if want != result and not ("Deep" in want or "Deep" in result):
             out.fail("%s.%s(%s) returns %s but a model to which only the edits were applied returns %s" % (
-                op[1], op[2], op[3], result, want), S.hist_json(ops, k), key=classify(deep_hit))
+                op[1], op[2], op[3], result, want), S.hist_json(ops, k), key=classify(deep_hit, live, (op[1], op[2]), result))
 
     def end(self, live, ops, out, stats):
         deep0 = deep_counter.count
@@ -85,7 +98,7 @@ class H(S.Hooks):
                 p, rest = q.rsplit(".", 1)
                 out.fail("%s returns %s but a model to which only the edits were applied returns %s" % (q, v, w),
                          S.hist_json(ops + [["eval", p, rest.split("(")[0], int(rest.split("(")[1][:-1])]]),
-                         key=classify(deep_counter.count > deep0))
+                         key=classify(deep_counter.count > deep0, live, (p, rest.split("(")[0]), v))
                 break
 
 
